@@ -651,8 +651,14 @@ def cause_of(tr, index):
     none              - neither."""
     pending = set()
     cause = "none"
+    # the epoch bump happens inside the producer BEFORE the failed message shows up on Errors(): a request carrying the
+    # bumped epoch may therefore be recorded by the broker before the application records the error event. When the
+    # event under judgement itself shows a bumped epoch, error events recorded after it count as well.
+    ev0 = next((e for e in tr if e["i"] == index), {})
+    bumped = any((b.get("epoch") or 0) > 0 for b in (ev0.get("batches") or [])) or (ev0.get("epoch") or 0) > 0
     for e in tr:
-        if e["i"] >= index:
+        late = e["i"] >= index
+        if late and (not bumped or cause != "none"):
             break
         ev = e["ev"]
         if ev == "submit":
@@ -663,7 +669,9 @@ def cause_of(tr, index):
             pending.discard(e["id"])
             if pending and cause == "none":
                 cause = "epoch_bump_with_inflight"
-        elif ev == "drop":
+            if late:
+                break        # only the first error recorded after the judged event can be the one that bumped
+        elif ev == "drop" and not late:
             return "conn_fault_retry"
     return cause
 
